@@ -1,6 +1,6 @@
 """C05 — stream transports deliver the same messages however the byte stream is cut (DESIGN.md §4 C05)."""
 import base64, hashlib, itertools, os
-from vlib import common as C, coapgen as G
+from vlib import common as C, coapgen as G, wsgen as W
 
 LEAN_MODULES = ["CoapVerif.Props.C05"]
 NAMESPACE = "Coap.C05"
@@ -186,14 +186,154 @@ def gen_tcp(ctx, n_streams, exhaustive_upto, n_exh):
     return out
 
 
+# ---------------------------------------------------------------------------------------------
+# WebSocket streams
+# ---------------------------------------------------------------------------------------------
+def ws_line(mode, stream, cuts):
+    return "ws %s %s %s" % (mode, hx(stream), cuts_str(cuts))
+
+
+def ws_msg(rng, cls=None):
+    """payload of one binary frame: a CoAP-over-WS message of a chosen size class"""
+    c = cls if cls is not None else rng.choice([0, 0, 0, 1, 2, 3])
+    typ, code, mid, token, opts, pl = G.gen_msg(rng, big=False, valid_len=True)
+    if c == 0:      # tiny: fits, with its frame header, in the 14-byte header read
+        token = token[:rng.choice([0, 0, 1, 2, 4])]
+        opts, pl = [], (G.rbytes(rng, rng.randint(1, 3)) if rng.random() < 0.3 and code else b"")
+    elif c == 1:
+        opts = opts[:2]; pl = G.rbytes(rng, rng.randint(0, 60)) if code else b""
+    elif c == 2:
+        pl = G.rbytes(rng, rng.choice([100, 125, 126, 127, 300, 1000, 1400]))
+    else:
+        pl = G.rbytes(rng, rng.choice([1460, 1466, 1470, 1472, 1473, 1500, 70000]))   # around the 1472-byte buffer
+    if code == 0:
+        token, opts, pl = b"", [], b""
+    return G.encode("ws", 0, code, 0, token, opts, pl)
+
+
+def ws_frame(rng, mode, payload):
+    masked = mode == "s"
+    n = len(payload)
+    forms = [f for f in (7, 16, 64) if (f != 7 or n <= 125) and (f != 16 or n <= 0xFFFF)]
+    lf = rng.choice(forms) if rng.random() < 0.3 else None
+    return W.frame(payload, masked, lenform=lf, mask=G.rbytes(rng, 4) if masked else None)
+
+
+def ws_special(rng, mode):
+    """frames around the edges of the framing rules"""
+    masked = mode == "s"
+    c = rng.randrange(9)
+    if c == 0: return W.frame(b"", masked)                                    # empty frame
+    if c == 1: return W.frame(G.rbytes(rng, 1), masked)                       # 1-byte frame (no CoAP message)
+    if c == 2: return W.frame(bytes([0, rng.choice([0, 1, 0xe2, 0xe3])]), masked)   # 2-byte message
+    if c == 3: return W.frame(b"\x03\xe8", masked, opcode=W.OP_CLOSE)
+    if c == 4: return W.frame(b"", masked, opcode=rng.choice([W.OP_PING, W.OP_PONG, W.OP_TEXT, W.OP_CONT]))
+    if c == 5: return W.frame(ws_msg(rng, 0), not masked)                     # wrong masking for the role
+    if c == 6: return W.frame(ws_msg(rng, 0), masked, fin=False)
+    if c == 7: return W.frame(b"", masked, lenform=64, declared_len=rng.choice([1473, 2 ** 31, 2 ** 63, 2 ** 64 - 1]))
+    return W.frame(bytes([0x01, 0x45]), masked)                               # TKL 1 without token: malformed
+
+
+def ws_handshake(rng, mode):
+    """(bytes, kind)"""
+    c = rng.random()
+    if c < 0.70:
+        return W.handshake(mode, rng, rng.choice([0, 0, 1, 2, 3])), "ok"
+    if c < 0.85:
+        n = rng.choice([140, 150, 155, 156, 157, 158, 159, 160, 161, 170, 200, 400])
+        return W.long_line_handshake(mode, n, newline=rng.random() < 0.6), "long"
+    if c < 0.93:
+        h = W.handshake(mode, rng, 0)
+        return h[:rng.randrange(len(h))], "trunc"
+    ls = W._lines(mode)
+    k = rng.randrange(4)
+    if k == 0: ls[0] = ls[0].replace("1.1", "1.0")
+    elif k == 1: del ls[rng.randrange(1, len(ls))]
+    elif k == 2: ls.insert(rng.randrange(1, len(ls) + 1), ls[rng.randrange(1, len(ls))])
+    else: ls[rng.randrange(1, len(ls))] += "x"
+    return ("\r\n".join(ls) + "\r\n\r\n").encode(), "bad"
+
+
+def ws_frame_boundaries(frames_bytes, base):
+    out = set()
+    pos = base
+    for f in frames_bytes:
+        for k in range(1, min(len(f), 15) + 1):
+            out.add(pos + k)
+        out.add(pos + len(f) - 1)
+        pos += len(f)
+    return out
+
+
+def gen_ws(ctx, n_streams, exhaustive_upto, n_exh):
+    rng = ctx.rng
+    out = []
+    exh = 0
+    for i in range(n_streams):
+        mode = rng.choice(["c", "s"])
+        hs, kind = ws_handshake(rng, mode)
+        tiny = rng.random() < 0.4
+        # binary frame bytes after an unfinished header block would put NUL bytes into "lines" (C strings): not generated
+        k = rng.choice([0, 1, 2, 3, 3, 4, 6]) if kind == "ok" else 0
+        frames = []
+        for j in range(k):
+            if rng.random() < 0.15:
+                frames.append(ws_special(rng, mode))
+            else:
+                frames.append(ws_frame(rng, mode, ws_msg(rng, 0 if tiny else None)))
+        if frames and rng.random() < 0.15:
+            frames[-1] = frames[-1][:rng.randrange(1, len(frames[-1]) + 1)]      # stream ends inside a frame
+        body = b"".join(frames)
+        stream = hs + body
+        n, h = len(stream), len(hs)
+        segs = [[], list(range(1, n))]
+        if kind == "ok":
+            segs.append([h] if 0 < h < n else [])
+            fb = sorted(c for c in ws_frame_boundaries(frames, h) if 0 < c < n)
+            segs.append(sorted(set([h] + fb)) if h < n else fb)
+            for c in fb[:30]:
+                segs.append(sorted({h, c}) if h < n else [c])
+            for _ in range(4):
+                segs.append(sorted(set(rng.sample(fb, min(len(fb), rng.randint(1, 4))))) if fb else [])
+            # handshake cut anywhere, frames whole
+            for _ in range(4):
+                c = rng.randrange(1, h)
+                segs.append([c] + ([h] if rng.random() < 0.5 and h < n else []))
+            if 0 < len(body) <= exhaustive_upto and exh < n_exh:
+                exh += 1
+                ctx.cov["ws_exhaustive_streams"] = ctx.cov.get("ws_exhaustive_streams", 0) + 1
+                pos = list(range(h, n))
+                for kk in (1, 2, 3):
+                    for cs in itertools.combinations(pos, kk):
+                        segs.append([c for c in cs if 0 < c < n])
+        else:
+            # over-long / truncated / refused handshakes: cut anywhere
+            for _ in range(10):
+                segs.append(seg_random(rng, n))
+            for c in (h - 2, h - 1, 14, 28, 145, 146, 158, 159, 160):
+                if 0 < c < n:
+                    segs.append([c])
+        for _ in range(4):
+            segs.append(seg_random(rng, n))
+        seen = set()
+        for cs in segs:
+            t = tuple(cs)
+            if t in seen:
+                continue
+            seen.add(t)
+            out.append(ws_line(mode, stream, cs))
+    return out
+
+
 def generate(ctx, escalate=False):
     if ctx.thorough():
-        lines = gen_tcp(ctx, 6000, 40, 60)
+        lines = gen_tcp(ctx, 6000, 40, 60) + gen_ws(ctx, 5000, 16, 80)
     else:
-        lines = gen_tcp(ctx, 1200, 22, 8)
+        lines = gen_tcp(ctx, 1000, 22, 8) + gen_ws(ctx, 500, 12, 10)
     if escalate:
-        lines += gen_tcp(ctx, 1500, 22, 8)
-    ctx.cov["exhaustive"] = "every 1-, 2- and 3-cut placement of %d streams" % ctx.cov.get("exhaustive_streams", 0)
+        lines += gen_tcp(ctx, 1500, 22, 8) + gen_ws(ctx, 600, 12, 10)
+    ctx.cov["exhaustive"] = ("every 1-, 2- and 3-cut placement of %d TCP streams and of the frame part of %d WS streams"
+                             % (ctx.cov.get("exhaustive_streams", 0), ctx.cov.get("ws_exhaustive_streams", 0)))
     return ["consts"] + lines
 
 
@@ -204,10 +344,24 @@ def short(s):
     return s if s is None or len(s) < 200 else s[:190] + "…"
 
 
+def canon_impl(line, i):
+    """the compared part of the harness output: WS lines carry events / nack reason after ' # ' (informational), and
+    `up=` is only meaningful while the session is open"""
+    if i is None or not line.startswith("ws "):
+        return i
+    i = i.split(" # ")[0]
+    if " end=closed" in i:
+        i = i.split(" up=")[0]
+    return i
+
+
 def judge(ctx, c):
-    i, m, s = c["impl"], c["model"], c["spec"]
+    i, m, s = canon_impl(c["input"], c["impl"]), c["model"], c["spec"]
     if c["input"] == "consts":
         return None if i == m else ("tie", "constants of the code %s differ from the model's %s" % (i, m))
+    if i is not None and i.startswith("crash watchdog-skipped"):
+        ctx.cov["watchdog_skipped"] = ctx.cov.get("watchdog_skipped", 0) + 1
+        return None
     if s is not None and i != s:
         return ("spec", "the implementation hands on %s but the bytes of the stream contain %s" % (short(i), short(s)))
     if i != m:
@@ -217,7 +371,7 @@ def judge(ctx, c):
 
 def nontrivial(c):
     s = c["spec"] or ""
-    return not s.startswith("n=0 end=open")
+    return not (s.startswith("n=0 end=open") and "up=1" not in s)
 
 
 def classify(c):
@@ -226,6 +380,9 @@ def classify(c):
         return "consts"
     s = c["spec"] or ""
     ncuts = 0 if w[3] == "-" else w[3].count(",") + 1
+    if w[0] == "ws":
+        return "ws-%s:%s:%s" % (w[1], "closed" if "end=closed" in s else "up" if "up=1" in s else "handshake",
+                                "0cuts" if ncuts == 0 else "1-3cuts" if ncuts <= 3 else "many")
     return "%s:%s:%s" % (w[0], "closed" if "end=closed" in s else "open", "0cuts" if ncuts == 0 else "1-3cuts" if ncuts <= 3 else "many")
 
 
